@@ -247,6 +247,55 @@ pub fn run(out: &mut Out, tier: &str, seed: u64, scratch: &str) {
         out.case(&format!("c12 project {shown}"), &format!("{} {}", hashes[0], if same { "same-thrice" } else { "DIFFERS-IN-PROCESS" }));
         let _ = std::fs::remove_dir_all(&outdir);
     }
+    // a multi-file project with a syntax error in an imported module, checked through a *relative* path from inside
+    // a directory that differs from process to process: what is printed must not depend on where the project lives
+    {
+        let rel = format!("{scratch}/c12rel");
+        let _ = std::fs::remove_dir_all(&rel);
+        std::fs::create_dir_all(&rel).expect("mkdir");
+        std::fs::write(format!("{rel}/helper.incn"), "pub def helper( -> int:\n    return 1\n").expect("w");
+        std::fs::write(format!("{rel}/other.incn"), "pub def other() -> int:\n    return 2 +\n").expect("w");
+        std::fs::write(format!("{rel}/main.incn"), "from helper import helper\nfrom other import other\n\ndef main() -> None:\n    print(helper() + other())\n").expect("w");
+        let old = std::env::current_dir().ok();
+        let _ = std::env::set_current_dir(&rel);
+        let shown = match catch(|| incan::cli::commands::collect_modules("main.incn")) {
+            Ok(Ok(ms)) => format!("collected {}", ms.len()),
+            Ok(Err(e)) => format!("error {}", e.message),
+            Err(m) => format!("panic {m}"),
+        };
+        if let Some(o) = old { let _ = std::env::set_current_dir(o); }
+        out.case("c12 relative broken-dependency", &format!("{} {}", h(&shown), if shown.contains(&rel) { "MENTIONS-ABSOLUTE-LOCATION" } else { "relative" }));
+        let _ = std::fs::remove_dir_all(&rel);
+    }
+    // `incan test -v` on a file with several fixtures (every test skipped: nothing is compiled), four processes
+    {
+        let tv = format!("{scratch}/c12testv");
+        let _ = std::fs::remove_dir_all(&tv);
+        std::fs::create_dir_all(format!("{tv}/tests")).expect("mkdir");
+        let mut src = String::from("from testing import assert_eq\n\n");
+        for (i, n) in ["db", "cache", "client", "tmpdir", "clock", "config", "queue"].iter().enumerate() {
+            src.push_str(&format!("@fixture{}\ndef {n}() -> int:\n    return {i}\n\n", if i % 3 == 0 { "(autouse=true)" } else { "" }));
+        }
+        src.push_str("@skip(\"not now\")\ndef test_uses(db: int, cache: int) -> None:\n    assert_eq(db, 0)\n");
+        std::fs::write(format!("{tv}/tests/test_fx.incn"), src).expect("w");
+        let exe = std::env::current_exe().expect("exe");
+        let mut outs = Vec::new();
+        for _ in 0..4 {
+            let o = std::process::Command::new(&exe)
+                .args(["c16child", "x", "0", "/dev/null", "tests", "-", "0", "0"])
+                .current_dir(&tv)
+                .env("VERIF_TEST_VERBOSE", "1")
+                .env("NO_COLOR", "1")
+                .output()
+                .expect("spawn");
+            let text: String = String::from_utf8_lossy(&o.stdout).lines().filter(|l| !l.contains(" in ")).collect::<Vec<_>>().join("\n");
+            outs.push(text);
+        }
+        let same = outs.iter().all(|x| *x == outs[0]);
+        let listed = outs[0].lines().filter(|l| l.trim_start().starts_with("- ")).count();
+        out.case("c12 testv fixtures", &format!("{} fixtures={listed} {}", h(&outs[0]), if same { "same-4" } else { "DIFFERS-IN-PROCESS" }));
+        let _ = std::fs::remove_dir_all(&tv);
+    }
     unsafe { std::env::set_var("PATH", path) };
     let _ = std::fs::remove_dir_all(&ws);
     let _ = std::fs::remove_dir_all(&stub);
